@@ -709,6 +709,14 @@ def gather_check(d, idx):
 
 
 def replay_ctor(model, params, clause, info):
+    try:
+        return _replay_ctor(model, params, clause, info)
+    except Exception as e:  # the real constructor raised on a valid input
+        return {"violates": True, "detail": f"real constructor raised {type(e).__name__}: {str(e)[:300]}",
+                "entry": {"module": "contracts.C11_mtmvn", "function": "replay_ctor", "args": [model, list(params), clause, info]}}
+
+
+def _replay_ctor(model, params, clause, info):
     import torch
     from gpytorch.distributions import MultitaskMultivariateNormal as MT, MultivariateNormal as MV
     detail, bad = [], False
